@@ -461,6 +461,9 @@ class Normalizer:
         if kind == z3.Z3_OP_UNINTERPRETED:
             name = d.name()
             if not ch:
+                pinned = getattr(self, "sym_values", None)
+                if pinned and name in pinned:
+                    return Poly.const(pinned[name])
                 return Poly.atom(self.atoms.get("sym", name))
             args = [self.reduce(self.poly(c)) for c in ch]
             if name == "sqrt":
